@@ -30,14 +30,14 @@ def private_transfer_data(sn, payload, vendor=999):
 class Transfer(object):
     """One direction of one transaction: sender mac, apdu type of the data segments (0 request / 3 complex ack)."""
 
-    def __init__(self, sender, receiver, apdu_type, invoke, full, seg_size):
+    def __init__(self, sender, receiver, apdu_type, invoke, full, seg_size=None):
         self.sender = sender
         self.receiver = receiver
         self.apdu_type = apdu_type
         self.invoke = invoke
         self.full = full
-        self.seg_size = seg_size
-        self.count = max(1, (len(full) + seg_size - 1) // seg_size)
+        self.seg_size = seg_size    # learned from the first segment when not given
+        self.count = 1 if not seg_size else max(1, (len(full) + seg_size - 1) // seg_size)
         self.highest_sent = -1
         self.acked_upto = -1        # highest absolute index acknowledged *to the sender*
         self.window = 1             # before the first SegmentACK only segment 0 may be outstanding
@@ -49,6 +49,13 @@ class Transfer(object):
         chunk = a["payload"]
         if not a["seg"]:
             return 0 if chunk == self.full else None
+        if self.seg_size is None:
+            # the first segment defines the slice size (its length is judged under C12, not here)
+            if a["seq"] == 0 and chunk and self.full.startswith(chunk):
+                self.seg_size = len(chunk)
+                self.count = max(1, (len(self.full) + self.seg_size - 1) // self.seg_size)
+            else:
+                return None
         if not chunk and self.count > 1:
             return None
         cands = [i for i in range(a["seq"], self.count, 256)
